@@ -218,30 +218,34 @@ def rule_edge(ctx, py):
     ctx.floor(R, 8)
 
 
-def rule_uncg(ctx, py):
-    R = "C16.UNCG"
+def rule_uncg(ctx, py, R="C16.UNCG"):
+    from .. import pysym
     f = py.fn("coarsegrain.uncoarsegrain_trajectory_data")
-    st = [n for n in ast.walk(f) if isinstance(n, ast.Assign) and isinstance(n.targets[0], ast.Subscript) and
-          pyfe.src(n.targets[0].value) == "data"]
-    ctx.need(len(st) == 1, R, "store to data[...] not found")
-    st = st[0]
-    loops = {}
-    p = pyfe.parent(st)
-    while p is not None and p is not f:
-        if isinstance(p, ast.For):
-            loops[pyfe.src(p.target)] = pyfe.src(p.iter)
-        p = pyfe.parent(p)
-    idx = py_poly(st.targets[0].slice)
-    want = Poly.sym("n") * Poly.sym("state_size") + Poly.sym("s") * Poly.sym("ncg_space.size()") + Poly.sym("j")
-    ctx.check(idx == want and loops.get("j") == "cg_nodes[node_index]", R, st.targets[0], f._qual,
-              pyfe.src(st.targets[0])[:80], "[sample][species][member cell j of the group]",
-              "output index %r is not sample*state_size + species*size + cell" % idx)
-    v = st.value
-    ok = isinstance(v, ast.BinOp) and isinstance(v.op, ast.Div) and \
-        pyfe.src(v.left).replace(" ", "") == "in_state[n,s,node_index]" and \
-        pyfe.src(v.right) == "len(cg_nodes[node_index])"
-    ctx.check(ok, R, v, f._qual, pyfe.src(v), "the group's value divided by the size of that same group",
-              "the value is not divided by the size of the group it belongs to")
+    sts = [n for n in ast.walk(f) if isinstance(n, (ast.Assign, ast.AugAssign)) and
+           isinstance(n.targets[0] if isinstance(n, ast.Assign) else n.target, ast.Subscript) and
+           pyfe.src((n.targets[0] if isinstance(n, ast.Assign) else n.target).value) == "data"]
+    ctx.need(sts, R, "store to data[...] not found")
+    KEEP = {"state_size", "in_state", "cg_nodes", "cg_space", "data"}
+    for st in sts:
+        tgt = st.targets[0] if isinstance(st, ast.Assign) else st.target
+        loops = {}
+        p = pyfe.parent(st)
+        while p is not None and p is not f:
+            if isinstance(p, ast.For):
+                loops[pyfe.src(p.target)] = pysym.isrc(p.iter, f, stop=KEEP)
+            p = pyfe.parent(p)
+        idx = pysym.poly_of(pysym.frat(tgt.slice, f, stop=set(loops) | KEEP))
+        want = Poly.sym("n") * Poly.sym("state_size") + Poly.sym("s") * Poly.sym("ncg_space.size()") + Poly.sym("j")
+        ctx.check(idx == want and loops.get("j") == "cg_nodes[node_index]", R, tgt, f._qual,
+                  pyfe.src(tgt)[:80], "[sample][species][member cell j of the group]",
+                  "output index %r is not sample*state_size + species*size + cell" % idx)
+        v = st.value
+        got = pysym.frat(v, f, stop=set(loops) | KEEP)
+        wantv = pysym.rat(ast.parse("in_state[n, s, node_index] / len(cg_nodes[node_index])", mode="eval").body)
+        ctx.check(isinstance(st, ast.Assign) and got.equals(wantv), R, v, f._qual, pyfe.src(v)[:90],
+                  "the group's value divided by the size of that same group",
+                  "a cell receives `%s`, not the node's content / number of cells of the node: the cells of a node no longer add "
+                  "up to the node, species totals of the returned trajectory differ from the simulated ones" % pyfe.src(v)[:80])
     defs = {s_.targets[0].id: pyfe.src(s_.value) for s_ in ast.walk(f) if isinstance(s_, ast.Assign) and
             isinstance(s_.targets[0], ast.Name)}
     ctx.check(defs.get("state_size", "").replace(" ", "") in
